@@ -198,7 +198,7 @@ func c17Accept(w *core.W, in []byte, entry string) {
 
 // ---- meaning: enum: @e  ==  enum: [list]
 
-var c17Spellings = []string{`9223372036854775808`, `18446744073709551616`, `"a\/b"`, `"/"`, `0`, `-0`, `0.0`, `-0.0`, `1`, `1.0`, `1.00`, `10`, `10.0`, `2.5`, `2.50`, `-1.0`, `"1.0"`, `"1"`}
+var c17Spellings = []string{`9223372036854775808`, `18446744073709551616`, `"a\/b"`, `"/"`, `0`, `-0`, `0.0`, `-0.0`, `1`, `1.0`, `1.00`, `10`, `10.0`, `2.5`, `2.50`, `-1.0`, `"1.0"`, `"1"`, `"\u0061\u0062"`, `"ab"`, `"\ud83d\ude00"`, `"x\u0031\u002e5"`}
 
 var c17Layouts = []string{"compact", "spaced", "lines", "line-notes", "block-notes", "empty-annotations", "bare-line-notes"}
 
